@@ -21,6 +21,7 @@ ENQ = ('std::deque::push_back', 'cocls::coro_queue::queue_impl::push', 'std::deq
 
 def run(ctx, db, tier):
     mode_split(ctx, db)
+    install_only_inactive(ctx, db)
     direct_resume(ctx, db)
     drain_before_restore(ctx, db)
     who_writes_instance(ctx, db)
@@ -315,3 +316,52 @@ def resumed_once(ctx, db):
     ns = dict(C06.__dict__)
     exec(code, ns)
     ns['_sr'](ctx, db)
+
+
+# call sites of install_queue_* that need no local test of the mode, one reason each
+INSTALL_UNGUARDED = {
+    'cocls::coro_queue::install_queue_and_resume': 'the wrapper itself: its callers are the sites that are checked',
+    'cocls::coro_queue::initial_awaiter::await_suspend': 'guarded by the awaiter protocol: await_ready() answers is_active(), so await_suspend runs only in normal mode (the sibling is checked)',
+    'cocls::scheduler::start': 'blocking entry point for normal code: it installs a queue for the calling thread while it runs the scheduler loop',
+}
+
+
+def install_only_inactive(ctx, db):
+    """a nested install_queue_* shares the thread's single ready queue: its trailer drains everything that is queued, in the middle of the
+    running coroutine.  So every site that installs a queue does so on the normal-mode edge of a mode test"""
+    rid = ctx.rule('C05.install-only-inactive', 'WHO+PATHS', 'every call of install_queue_and_call / install_queue_and_resume in the library lies on the edge where coroutine mode tested '
+                   'inactive (a nested activation drains the whole ready queue inside the running coroutine); the tabled unguarded sites are the wrapper, the initial awaiter '
+                   '(guarded by await_ready = is_active) and the blocking scheduler::start', floor=5)
+    T = htracer(db, extra=inline_only('cocls::coro_queue::is_active'))
+    seen = set()
+    for f in db.all_instances():
+        if f['key'] in seen:
+            continue
+        sites = [e for e in f.events() if e.k == 'call' and norm(e.get('callee')) in INSTALL]
+        if not sites:
+            continue
+        seen.add(f['key'])
+        root = f
+        while root.get('lambda') and root.get('parent_key') and db.get(root['parent_key']) is not None:
+            root = db.get(root['parent_key'])
+        why = INSTALL_UNGUARDED.get(f['nname']) or INSTALL_UNGUARDED.get(root['nname'])
+        if why:
+            ok = True
+            if f['nname'].endswith('initial_awaiter::await_suspend'):
+                sib = db.fns('cocls::coro_queue::initial_awaiter::await_ready')
+                ok = bool(sib) and all((ret_expr(tr) or '').endswith('is_active)') or re.fullmatch(r'\(global:cocls::coro_queue::instance != nullptr\)', ret_expr(tr) or '') for tr in T.traces(sib[0]) if live(tr))
+            ctx.ob(rid, f, sites[0]['loc'], ok, 'unguarded by table: ' + why, desc='initial awaiter no longer guarded by await_ready = is_active')
+            continue
+        trs = [t for t in T.traces(f) if live(t)]
+        ctx.paths(rid, len(trs))
+        for e in sites:
+            bad = None; n = 0
+            for tr in trs:
+                i = index_of(tr, lambda ev: ev.k == 'call' and ev.get('id') == e['id'] and ev.get('fn') == f['key'])
+                if i < 0:
+                    continue
+                n += 1
+                if mode_of(tr[:i]) != 'inactive':
+                    bad = bad or tr
+            ctx.ob(rid, f, e['loc'], bad is None and n > 0, 'a queue is installed only after coroutine mode tested inactive', desc='install_queue_* on a path that may be in coroutine mode',
+                   trace=fmt_trace(bad) if bad else None)
